@@ -4,7 +4,7 @@
     ([sat], [mined_at] arbitrary functions) and every RNG script. *)
 From V.Lib Require Import Base.
 From V.Gen Require Import C18Consts.
-From V.C18 Require Import Model Spec Corr Wf Store ProofsDead ProofsKernel ProofsLife ProofsDrive ProofsRebuild ProofsSeq ProofsStrand ProofsTerm ProofsTotal ProofsSampler ProofsStatus ProofsMarks Bridge ProofsStore StoreFull ProofsStoreFull.
+From V.C18 Require Import Model Spec Corr Wf Store ProofsDead ProofsKernel ProofsLife ProofsDrive ProofsRebuild ProofsSeq ProofsStrand ProofsTerm ProofsTotal ProofsSampler ProofsStatus ProofsMarks ProofsMarks2 Bridge ProofsStore StoreFull ProofsStoreFull.
 From Coq Require Import Sorted.
 Local Open Scope Z_scope.
 
@@ -212,6 +212,18 @@ Theorem C18_record_marks_sound : forall s tg dets, NoDup (map t_id (m_txs s)) ->
   step_ok (tg_scanned tg) (m_txs s) (m_txs (record_satisfiability s tg dets)).
 Proof. exact record_sat_marks. Qed.
 
+(** ... and the direct half: a directly observed mark that appears during one drive call (or one
+    [record_satisfiability]) on a row unmarked before carries the oracle's own answer for a row
+    with that id — the same height and the same kind ([said sat i a]: the store answered [a] for a
+    row with id [i]).  Guard: unique ids. *)
+Theorem C18_advance_marks_backed : forall sat mined_at s tg r st s' dirty, NoDup (map t_id (m_txs s)) ->
+  advance sat mined_at s tg r = ARes st s' dirty -> marks_backed sat (m_txs s) (m_txs s').
+Proof. exact advance_marks_backed. Qed.
+Theorem C18_record_marks_backed : forall (P : Z -> answer -> Prop) s tg dets, NoDup (map t_id (m_txs s)) ->
+  Forall (fun d => P (fst d) (snd d)) dets ->
+  Forall2 (dir_ok P) (m_txs s) (m_txs (record_satisfiability s tg dets)).
+Proof. exact record_sat_direct. Qed.
+
 (** The dead set: the loop computes exactly the inductively specified set, it is the least set
     containing the seeds and closed under dependents, and it is a fixpoint of the pass (reached
     within the [|txs|+1] passes of fuel). *)
@@ -308,12 +320,14 @@ Theorem C18_one_live_migration : forall ss,
 Proof. exact one_live_migration. Qed.
 
 (** Bridge: whenever the implementation agrees with the model on a case ([run_case]), the
-    implementation's observed outcome satisfies the property checker of Spec.v (everything
-    [prop_case] checks except the SQLite verdicts, which are observations of the real database). *)
+    implementation's observed outcome satisfies the property checker — everything [prop_case]
+    checks, mark soundness ([prop_marks]) included, except the SQLite / memory-backend verdicts,
+    which are observations of the real stores.  ([wf_case] supplies the unique ids.) *)
 Theorem C18_bridge : forall pre ev post out p,
   wf_case (Case pre ev post out p) = true ->
-  run_case (Case pre ev post out p) = true -> prop_event pre ev post out = true.
-Proof. exact bridge. Qed.
+  run_case (Case pre ev post out p) = true ->
+  prop_event pre ev post out && prop_marks pre ev post = true.
+Proof. exact bridge_full. Qed.
 
 (** non-vacuity: a state on which the kernel offers a broadcast, and a stranded one *)
 Example C18_nonvacuous_broadcast :
